@@ -212,7 +212,7 @@ def gen_call(rng, fam=None, names=NAMES):
         tl = ax[:]
         rng.shuffle(tl)
         free = [n for n in names if n not in dict(ax)]
-        idxax = [(n, rng.choice((1, 2, 3))) for n in rng.sample(free, min(len(free), rng.randint(1, 2)))]
+        idxax = [(n, rng.choice((1, 2, 3, 4))) for n in rng.sample(free, min(len(free), rng.randint(1, 2)))]
         tshape = tuple(s for _, s in tl)
         t = mkdata(rng, tshape, kind)
         brsizes = [s for n, s in tl if n in br]
@@ -220,17 +220,29 @@ def gen_call(rng, fam=None, names=NAMES):
         ni = int(np.prod(ishape)) if ishape else 1
         coords = [[rng.randrange(s) for s in brsizes] for _ in range(ni)]
         ct = {"shape": list(ishape) + [len(brsizes)], "dtype": "int64", "data": [c for row in coords for c in row]}
-        cexpr = " ".join(n for n, _ in idxax) + f" [{len(brsizes)}]"
+        # index axes may be written as flattened groups without sizes for their parts ("(p q)": named cse.<k> internally) or as
+        # unnamed axes ("3": named unnamed.<uuid4> internally) - both are derived names that must not influence the result
+        style = rng.random()
+        spare = [n for n in names if n not in dict(ax) and n not in dict(idxax)]
+        shown = {}
+        for n, s_ in idxax:
+            if style < 0.3 and len(spare) >= 2:
+                shown[n] = f"({spare.pop()} {spare.pop()})"
+            elif 0.3 <= style < 0.42 and s_ > 1:
+                shown[n] = str(s_)
+            else:
+                shown[n] = n
+        cexpr = " ".join(shown[n] for n, _ in idxax) + f" [{len(brsizes)}]"
         fr = [a for a in tl if a[0] not in br]
         if fam == "get_at":
             o = idxax + fr
             rng.shuffle(o)
-            return _d("get_at", f"{gstr([[a] for a in tl], br)}, {cexpr} -> {' '.join(n for n, _ in o)}", [t, ct])
-        op = rng.choice(["set_at", "add_at", "subtract_at"])
+            return _d("get_at", f"{gstr([[a] for a in tl], br)}, {cexpr} -> {' '.join(shown.get(n, n) for n, _ in o)}", [t, ct])
+        op = rng.choice(["set_at", "set_at", "add_at", "subtract_at"])
         u = idxax + [a for a in fr if rng.random() < 0.7]
         rng.shuffle(u)
         upd = mkdata(rng, tuple(s for _, s in u), kind)
-        return _d(op, f"{gstr([[a] for a in tl], br)}, {cexpr}, {' '.join(n for n, _ in u)}", [t, ct, upd])
+        return _d(op, f"{gstr([[a] for a in tl], br)}, {cexpr}, {' '.join(shown.get(n, n) for n, _ in u)}", [t, ct, upd])
     if fam == "argfind":
         op = rng.choice(["argmax", "argmin"])
         ax = axes(rng, rng.randint(1, 4), names=names)
@@ -295,10 +307,25 @@ def corrupt(rng, call):
     return d
 
 
+def anonymise(rng, d):
+    """Replace one named axis by an unnamed one where its size is known from the description's keywords
+    (unnamed axes get uuid4-derived names inside einx).  The result need not be a valid call."""
+    import re
+
+    ks = [k for k, v in d["kw"].items() if isinstance(v, int) and not isinstance(v, bool) and k != "shift" and re.search(rf"\\b{k}\\b", d["desc"])]
+    if not ks:
+        return d
+    k = rng.choice(sorted(ks))
+    d = dict(d, desc=re.sub(rf"\\b{k}\\b", str(d["kw"][k]), d["desc"]), kw={a: b for a, b in d["kw"].items() if a != k})
+    return d
+
+
 def gen_corpus(rng, n, pbad=0.25, pgraph=0.15, names=NAMES):
     out = []
     while len(out) < n:
         c = gen_call(rng, names=names)
+        if rng.random() < 0.15:
+            c = anonymise(rng, c)
         if rng.random() < pbad:
             c = corrupt(rng, c)
         if rng.random() < pgraph and c["op"] not in ("solve_axes", "solve_shapes", "matches"):
